@@ -59,6 +59,9 @@ def build_traces(path, tier, seed):
         x, shape = gen.record(rng, n, amp=float(10.0 ** rng.uniform(-1, 1)))
         if shape in ("zero",):
             x = rng.standard_normal(n)
+        if n % 3 == 1:       # raw counts: unit-size signal on a large baseline
+            x = rng.standard_normal(n) + float(10.0 ** rng.uniform(3, 6))
+            shape = "noise on a large offset"
         s1 = np.asarray(stockwell.transform(x.copy()))
         s2 = np.asarray(stockwell.transform_w_scipy_fft(x.copy()))
         if s2.shape != s1.shape:
